@@ -3,6 +3,22 @@ from . import term as T
 from . import smt, solver
 
 
+import re as _re
+
+_NID = _re.compile(r"\bn\d+\b|t\d+")
+
+
+def _canon_ids(text):
+    m = {}
+
+    def r(mo):
+        k = mo.group(0)
+        if k not in m:
+            m[k] = "k%d" % len(m)
+        return m[k]
+    return _NID.sub(r, text)
+
+
 class Realisation(BaseException):
     """code under test tried to turn a symbolic value into a concrete number at a C boundary"""
 
@@ -25,6 +41,7 @@ class Run:
         self.vars = {}             # name -> (lo, hi, kind) declared base variables
         self.unknown_forks = 0
         self.fork_queries = 0
+        self.fork_hashes = set()
         self.rng_log = []
 
     def guard_div(self, d):
@@ -44,6 +61,8 @@ class Run:
         at = smt.Atomizer(roots)
         text = smt.print_smt(at.out + at.axioms)
         self.fork_queries += 1
+        import hashlib
+        self.fork_hashes.add("f" + hashlib.sha1(_canon_ids(text).encode()).hexdigest()[:12])
         v, _, _ = solver.check(text, (), fast_ms=2000, slow_s=10, tag="fork")
         return v
 
